@@ -19,7 +19,7 @@
 #include <vector>
 
 extern "C" int  verif_run_case_text(const char* text, const char* property, const char* mode, int strict_f8, char* out, unsigned long out_cap);
-extern "C" void __sanitizer_set_death_callback(void (*)(void));
+extern "C" void __sanitizer_set_death_callback(void (*)(void)) __attribute__((weak)); // absent in the sanitizer-free "plain" build
 
 namespace
 {
@@ -257,7 +257,7 @@ Profile make_profile(const std::string& name)
         int w[] = {1, 0, 0, 0, 1, 0, 0, 0, 0, 0, 0, 0, 0, 0, 0, 0};
         std::memcpy(p.w, w, sizeof w);
         p.w[O_REP] = 0;
-        p.caps = name == "rrmass" ? std::vector<std::pair<std::size_t, int>>{{3, 3}, {1, 6}} : std::vector<std::pair<std::size_t, int>>{{1, 3}, {1, 6}, {2, 8}};
+        p.caps = name == "rrmass" ? std::vector<std::pair<std::size_t, int>>{{2, 3}, {2, 5}, {1, 7}} : std::vector<std::pair<std::size_t, int>>{{1, 3}, {1, 5}, {2, 7}, {2, 8}};
         return p;
     }
     if (name == "range") // C18
@@ -488,7 +488,8 @@ int gen_main(int argc, char** argv)
                 if (t == kKindName[k])
                     kinds.push_back(k);
     }
-    __sanitizer_set_death_callback(dump_current);
+    if (__sanitizer_set_death_callback)
+        __sanitizer_set_death_callback(dump_current);
     std::signal(SIGABRT, on_abort);
 
     Stats             st;
